@@ -88,6 +88,13 @@ static void s_thread_fn(void *arg) {
         struct aws_linked_list cancel_list_cpy;
         aws_linked_list_init(&cancel_list_cpy);
 
+        /* Read the clock before picking up the cross-thread queues. A cancellation issued before a task's time has
+         * then been queued before the swap below, so it is processed in this pass before the task can count as due.
+         * (Reading it after the cancellations were processed let a task run, and then also be cancelled, when a slow
+         * cancellation callback stretched this pass beyond the task's time.) */
+        uint64_t current_time = 0;
+        aws_high_res_clock_get_ticks(&current_time);
+
         AWS_FATAL_ASSERT(!aws_mutex_lock(&scheduler->thread_data.mutex) && "mutex lock failed!");
         aws_linked_list_swap_contents(&scheduler->thread_data.scheduling_queue, &list_cpy);
         aws_linked_list_swap_contents(&scheduler->thread_data.cancel_queue, &cancel_list_cpy);
@@ -112,8 +119,6 @@ static void s_thread_fn(void *arg) {
         }
 
         /* now run everything */
-        uint64_t current_time = 0;
-        aws_high_res_clock_get_ticks(&current_time);
         aws_task_scheduler_run_all(&scheduler->scheduler, current_time);
 
         uint64_t next_scheduled_task = 0;
